@@ -203,6 +203,11 @@ def run_job(job, rec):
         rec.check(bool(np.all(sig**2 <= prior_var + tol_cov) and np.all(np.isfinite(sig)) and np.all(sig >= 0)), "variance-out-of-range",
                   lambda: f"{desc}: predictive variance {sig**2} outside [0, prior variance {prior_var}]", rec.context)
 
+        # ---- a repeated call returns the same numbers (no state accumulates between calls)
+        out_b = guarded(gp, qa)
+        rec.check((not isinstance(out_b, Raised)) and np.array_equal(np.asarray(out_b[0]), mu) and np.array_equal(np.asarray(out_b[1]), sig), "repeated-call-differs",
+                  "two identical calls of the regressor returned different predictions", rec.context)
+
         # ---- single-point call agrees with the batched one
         k = int(rng.integers(len(q)))
         one = q[k] if d > 1 else (q[k] if rng.random() < 0.5 else float(q[k, 0]))
@@ -305,6 +310,35 @@ def run_job(job, rec):
                 o2 = guarded(b2[0], q)
                 ok2 = (not isinstance(o2, Raised)) and bool(np.all(np.abs(o2[0] - mu) <= tol_mu)) and bool(np.all(np.abs(o2[1] ** 2 - sig**2) <= tol_cov))
                 rec.check(ok2, "yerr-vs-ycov", lambda: f"y_cov=diag(y_err^2) ({f2}) gives different predictions: {o2} vs {(mu, sig)}", rec.context)
+
+    # ---- regressors built with the default kernel / mean classes do not share state
+    for c in range(max(3, job["n_cases"] // 10)):
+        probs = []
+        for k in range(2):
+            d = int(rng.choice([1, 2]))
+            n = int(rng.choice([4, 7, 11]))
+            x = G.random_points(rng, n, d)
+            y = rng.normal(size=n)
+            err = 10.0 ** rng.uniform(-1.5, -0.5, size=n)
+            hp = np.concatenate([[rng.normal()], G.random_theta(("SE",), rng, x, 1.0)])
+            probs.append((x, y, err, hp, guarded(GpRegressor, x, y, y_err=err, hyperpars=hp)))
+        dctx = {"default_class_pair": c}
+        rec.context = dctx
+        rec.count("cases:default_class_pairs")
+        for which in (0, 1):
+            x, y, err, hp, g = probs[which]
+            if isinstance(g, Raised):
+                rec.violation("raised", f"GpRegressor with default kernel raised {g!r}", dctx)
+                continue
+            n = len(y)
+            q = x[:2] + 0.3 * np.exp(hp[2:])
+            jit = np.exp(2 * hp[1]) * 1e-12 * np.ones(n)
+            mu_r, cov_r, Kxx, _ = R.posterior(("SE",), "Constant", x, y, np.diag(err**2), hp[:1], hp[1:], q, jit)
+            o = guarded(g, q)
+            cnd = np.linalg.cond(Kxx)
+            okd = (not isinstance(o, Raised)) and bool(np.all(np.abs(o[0] - mu_r) <= 1e-9 * max(cnd, 1) * (np.abs(y).max() + abs(hp[0]) + 1))) \
+                and bool(np.all(np.abs(o[1] ** 2 - np.diag(cov_r)) <= 1e-9 * max(cnd, 1) * np.exp(2 * hp[1])))
+            rec.check(okd, "objects-share-state", lambda: f"regressor {which} of two built with the default kernel/mean classes does not return its own closed-form posterior: {o!r} vs {mu_r}", dctx)
 
     rec.count("post:__call__", att_call.calls)
     rec.count("post:build_posterior", att_post.calls)
